@@ -91,10 +91,10 @@ Qed.
 Lemma find_metadata_spec : pspec ape_find_metadata d 0 (fun fm _ => found_ok fm).
 Proof.
   unfold ape_find_metadata. pose proof (zlen_nonneg d) as Hz. unfold c04_two62 in Hlen.
-  pstep. eapply pspecE_catch' with (E' := fun _ => False) (Q0 := fun r p' => r = true /\ p' = Z.max 0 (zlen d + -32)).
-  { psteps. split; reflexivity. }
-  { intros e []. }
-  intros r p' [-> ->]. cbn [negb].
+  pstep. apply get_size_spec; [unfold c04_two63; lia|].
+  destruct (zlen d <? 32) eqn:E32.
+  { psteps. split; [left; reflexivity|exact I]. }
+  apply Z.ltb_ge in E32.
   set (p0 := Z.max 0 (zlen d + -32)).
   psteps.
   { (* simple footer *) apply apetagex_len in Heqb. split; [left; reflexivity|]. cbn [af_footer]. unfold p0 in *. lia. }
